@@ -214,6 +214,11 @@ C04ObjLeafs ==
                                          <<"b", ObjectS("B", <<Prop("b", StringS(None, None, None), FALSE)>>, "map", FALSE)>> >>),
       OneOfS("int", "type", TRUE, << <<1, ObjectS("A", <<Prop("a", IntS(Some(1), Some(2), None), TRUE), Prop("type", IntS(None, None, None), TRUE)>>, "map", FALSE)>> >>),
       OneOfS("string", "type", FALSE, << <<"a", ObjectS("A", <<Prop("a", IntS(Some(1), Some(2), None), TRUE)>>, "sub", FALSE)>> >>),
+      \* objects without any property (a non-map value has no property to be shorthand for), also as a member of an
+      \* object and behind a reference
+      ObjectS("E0", <<>>, "map", FALSE), ObjectS("E0", <<>>, "ptrs", FALSE), ObjectS("E0", <<>>, "wide_p", TRUE),
+      ObjectS("O", << Prop("a", IntS(Some(1), Some(2), None), FALSE), Prop("n", ObjectS("E0", <<>>, "map", FALSE), FALSE) >>, "map", FALSE),
+      ScopeS("R", << ObjectS("R", << Prop("a", IntS(Some(1), Some(2), None), FALSE), Prop("n", RefS("E0"), FALSE) >>, "map", FALSE), ObjectS("E0", <<>>, "map", FALSE) >>),
       \* objects mapped to a POINTER type, and a one-of over such a member: the typed nil pointer of exactly that
       \* type (junk classes nil_wide / nil_sub) reaches them at the root, as list item, map value and one-of value
       ObjectS("O", << Prop("a", IntS(Some(1), Some(2), None), TRUE), Prop("x", AnyS, FALSE) >>, "wide_p", FALSE),
@@ -233,6 +238,18 @@ C04DefLoopLeafs ==
     { ScopeS("A", << ObjectS("A", << PropS("n", RefS("A"), FALSE, <<>>, <<>>, <<>>, Some(M("string_any", <<>>)), FALSE, FALSE) >>, "map", FALSE) >>),
       ScopeS("A", << ObjectS("A", << PropS("a", IntS(None, None, None), FALSE, <<>>, <<>>, <<>>, Some(F64(2)), FALSE, FALSE),
                                      Prop("x", RefS("A"), FALSE) >>, "ptrs", FALSE) >>) }
+\* chains of single-property objects (each handing a non-map value on through the inline shorthand): a loop
+\* behind the entry object, longer cycles, and a chain that ends.  Root id "LOOP...": the orchestrator runs
+\* these vectors with a short per-case timeout, so that "does not return" costs seconds.
+One(id, next) == ObjectS(id, << Prop("n", RefS(next), FALSE) >>, "map", FALSE)
+C04ChainLeafs ==
+    { ScopeS("LOOP0", << One("LOOP0", "o1"), One("o1", "o1") >>),                              \* o0 -> o1 -> o1
+      ScopeS("LOOP0", << One("LOOP0", "o1"), One("o1", "o2"), One("o2", "o1") >>),             \* o0 -> o1 -> o2 -> o1
+      ScopeS("LOOP0", << One("LOOP0", "o1"), One("o1", "o2"), One("o2", "LOOP0") >>),          \* a 3-cycle
+      ScopeS("LOOP0", << One("LOOP0", "o1"), One("o1", "o2"),
+                         ObjectS("o2", << Prop("a", IntS(Some(1), Some(2), None), TRUE) >>, "map", FALSE) >>) }   \* a chain that ends
+C04ChainValues == { Str("a"), Str("1"), Nil, I64(1), L("any", <<I64(1)>>), L("bytes", <<I("uint8", 1)>>),
+                    M("any_any", << <<Str("n"), Str("a")>> >>), M("string_any", << <<Str("n"), M("any_any", << <<Str("n"), I64(1)>> >>)>> >>) }
 C04LoopValues == { Str("a"), L("any", <<I64(1)>>), M("any_any", <<>>), M("any_any", << <<Str("n"), Nil>> >>),
                    M("string_any", << <<Str("n"), M("any_any", << <<Str("n"), M("any_any", <<>>)>> >>)>> >>) }
 C04Leafs ==
@@ -266,7 +283,8 @@ C04Values ==
     \cup { M("any_any", << <<Str("a"), I64(1)>>, <<Str("type"), Str("a")>> >>), M("string_any", << <<Str("a"), I64(1)>>, <<Str("type"), Str("a")>> >>),
            M("string_any", << <<Str("a"), I64(1)>>, <<Str("type"), I64(1)>> >>), M("any_any", << <<Str("a"), I64(1)>>, <<Str("type"), I("uint64", 1)>> >>),
            M("int64_any", << <<I64(1), Str("type")>> >>), M("typed", << <<Str("type"), Str("a")>> >>), M("typed", << <<S("named", "type"), Str("a")>> >>),
-           M("string_any", << <<Str("type"), Nil>> >>), M("string_any", << <<Str("a"), I64(1)>>, <<Str("n"), M("any_any", << <<Str("a"), Nil>> >>)>> >>),
+           M("string_any", << <<Str("type"), Nil>> >>), M("any_any", << <<Str("a"), I64(1)>>, <<Str("n"), Str("a")>> >>),
+           M("string_any", << <<Str("n"), L("any", <<I64(1)>>)>> >>), M("string_any", << <<Str("n"), M("any_any", <<>>)>> >>), M("string_any", << <<Str("a"), I64(1)>>, <<Str("n"), M("any_any", << <<Str("a"), Nil>> >>)>> >>),
            Struct("wide", << <<"l", Some(L("typed", <<>>))>>, <<"m", Some(M("typed", <<>>))>>, <<"b", Some(Str("#empty"))>> >>),
            Struct("wide", << <<"l", Some(L("typed", <<I64(1)>>))>>, <<"m", Some(M("typed", << <<Str("a"), I64(1)>> >>))>>, <<"b", Some(Str("a"))>> >>),
            Struct("ptrs", << <<"a", Some(I64(1))>>, <<"x", None>> >>), Struct("ptrs", << <<"a", None>>, <<"x", Some(L("any", <<Nil>>))>> >>),
@@ -394,6 +412,31 @@ ZooRaw ==
       M("string_any", << <<Str("m"), M("any_any", << <<I64(1), I64(1)>> >>)>> >>), M("string_any", << <<Str("x"), Nil>> >>),
       M("string_any", << <<Str("f"), FS("float64", "nan")>> >>), M("string_any", << <<Str("l"), L("any", <<>>)>>, <<Str("ls"), L("any", <<>>)>> >>) }
 
+\* explicit zero values for optional (pointer-field) properties: a supplied 0 / "" / false / 0.0 is a value, not absence
+ZA == IntS(None, None, None)
+ZB == StringS(None, None, None)
+ZF == FloatS(None, None, None)
+ZeroProps(mode) ==
+    IF mode = "default"
+    THEN << PropS("a", ZA, FALSE, <<>>, <<>>, <<>>, Some(F64(6)), FALSE, FALSE), PropS("b", ZB, FALSE, <<>>, <<>>, <<>>, Some(Str("ab")), FALSE, FALSE),
+            PropS("c", BoolS, FALSE, <<>>, <<>>, <<>>, Some(B(TRUE)), FALSE, FALSE), PropS("f", ZF, FALSE, <<>>, <<>>, <<>>, Some(F64(3)), FALSE, FALSE) >>
+    ELSE << Prop("a", ZA, mode = "required"), Prop("b", ZB, mode = "required"), Prop("c", BoolS, mode = "required"), Prop("f", ZF, mode = "required") >>
+ZeroObjs == {ObjectS("Z", ZeroProps(m), lay, FALSE) : m \in {"default", "required", "optional"}, lay \in {"ptrs", "map"}}
+ZeroChoices ==
+    [a |-> {I64(0), Str("0"), F64(0), I64(1)}, b |-> {Str("#empty"), Str("a")}, c |-> {B(FALSE), Str("no"), I64(0), B(TRUE)}, f |-> {F64(0), I64(0), Str("0"), F64(3)}]
+ZeroRaw ==
+    {M("any_any", << <<Str(n), x>> >>) : n \in {"a"}, x \in ZeroChoices.a} \cup {M("any_any", << <<Str("b"), x>> >>) : x \in ZeroChoices.b}
+    \cup {M("any_any", << <<Str("c"), x>> >>) : x \in ZeroChoices.c} \cup {M("any_any", << <<Str("f"), x>> >>) : x \in ZeroChoices.f}
+    \cup {M("string_any", << <<Str("a"), w>>, <<Str("b"), x>>, <<Str("c"), y>>, <<Str("f"), z>> >>) :
+            w \in {I64(0), I64(1)}, x \in {Str("#empty"), Str("a")}, y \in {B(FALSE), B(TRUE)}, z \in {F64(0), F64(3)}}
+    \cup {M("any_any", <<>>)}
+ZeroContainers == {ListS(o, None, None, FALSE) : o \in {q \in ZeroObjs : q.layout = "ptrs"}} \cup {MapS(ZB, o, None, None, FALSE) : o \in {q \in ZeroObjs : q.layout = "ptrs"}}
+ZeroInner == { M("any_any", << <<Str("a"), I64(0)>>, <<Str("b"), Str("#empty")>>, <<Str("c"), B(FALSE)>>, <<Str("f"), F64(0)>> >>),
+               M("any_any", << <<Str("a"), I64(1)>>, <<Str("b"), Str("a")>>, <<Str("c"), B(TRUE)>>, <<Str("f"), F64(3)>> >>) }
+ZeroContainerRaw(s) ==
+    IF s.kind = "list" THEN {L("any", <<x>>) : x \in ZeroInner} \cup {L("any", <<x, y>>) : x \in ZeroInner, y \in ZeroInner}
+    ELSE {M("string_any", << <<Str("a"), x>> >>) : x \in ZeroInner}
+
 \* treat-empty-as-default on by-value fields (struct layouts only)
 EidObjs ==
     { ObjectS("E", << PropS("a", IntS(None, Some(2), None), req, <<>>, <<>>, cf, None, FALSE, TRUE),
@@ -516,6 +559,9 @@ InitC04 ==
     \/ \E leaf \in C04LoopLeafs : \E x \in C04LoopValues :
           \E p \in { <<leaf, x>>, <<ListS(leaf, None, None, FALSE), L("any", <<x>>)>> } :
               \E op \in {"unser", "compat", "valid", "ser"} : vec = Vec(p[1], op, p[2])
+    \/ \E leaf \in C04ChainLeafs : \E x \in C04ChainValues :
+          \E p \in { <<leaf, x>>, <<ListS(leaf, None, None, FALSE), L("any", <<x>>)>> } :
+              \E op \in {"unser", "compat"} : vec = Vec(p[1], op, p[2])
     \/ \E leaf \in C04DefLoopLeafs : \E x \in { M("any_any", <<>>), M("string_any", << <<Str("a"), I64(1)>> >>) } :
           \E op \in {"unser", "compat"} : vec = Vec(leaf, op, x)
 
@@ -543,6 +589,8 @@ InitC03 ==
           \/ Len(s.props) = 1 /\ \E x \in NatExtra(s) : \E op \in {"valid", "ser"} : vec = Vec(s, op, x)
     \/ \E s \in SubObjects : \E x \in SubRawArgs : vec = Vec(s, "unser", x)
     \/ \E s \in ZooObjs : \E x \in ZooRaw : vec = Vec(s, "unser", x)
+    \/ \E s \in ZeroObjs : \E x \in ZeroRaw : vec = Vec(s, "unser", x)
+    \/ \E s \in ZeroContainers : \E x \in ZeroContainerRaw(s) : vec = Vec(s, "unser", x)
     \/ \E s \in EidObjs :
           \/ \E x \in ObjRawArgs(s) : vec = Vec(s, "unser", x)
           \/ \E x \in EidNat(s) : \E op \in {"valid", "ser"} : vec = Vec(s, op, x)
@@ -603,6 +651,8 @@ InitC01 ==
           \E x \in ObjRawArgs(s) \cup (IF Len(s.props) = 1 THEN ObjRawExtra(s) ELSE {}) : Accepting(s, x) /\ vec = VecChain(s, x)
     \/ \E s \in SubObjects : \E x \in SubRawArgs : Accepting(s, x) /\ vec = VecChain(s, x)
     \/ \E s \in ZooObjs : \E x \in ZooRaw : Accepting(s, x) /\ vec = VecChain(s, x)
+    \/ \E s \in ZeroObjs : \E x \in ZeroRaw : vec = VecChain(s, x)
+    \/ \E s \in ZeroContainers : \E x \in ZeroContainerRaw(s) : vec = VecChain(s, x)
     \/ \E s \in EidObjs : \E x \in ObjRawArgs(s) : Accepting(s, x) /\ vec = VecChain(s, x)
     \/ \E s \in OneOfs \cup OneOfStruct : \E x \in OneOfRawArgs : Accepting(s, x) /\ vec = VecChain(s, x)
     \/ \E s \in RefScopes : \E x \in RefRawArgs : Accepting(s, x) /\ vec = VecChain(s, x)
